@@ -310,6 +310,9 @@ type c12Upd struct {
 	Signer  string `json:"signer"`           // committee whose members sign
 	Next    string `json:"next,omitempty"`   // committee the attested state commits as next (full only)
 	Corrupt string `json:"corrupt,omitempty"`
+	// Ver != 0: the participants sign under this fork version (first byte; 0: the Altair version of
+	// the base fixtures). Used by the cross-fork part, whose slots straddle mainnet's Bellatrix fork.
+	Ver uint8 `json:"signed_fork_version,omitempty"`
 }
 
 // c12Built is the update as plain fields (what the oracle reads) plus the typed
@@ -361,6 +364,9 @@ func c12Build(u c12Upd) *c12Built {
 		b.nextBranch = &t.comBranch
 	}
 	version, genesis := c12Version, c12GenesisRoot
+	if u.Ver != 0 {
+		version = [4]byte{u.Ver, 0, 0, 0}
+	}
 	switch class {
 	case "fork-version":
 		version = [4]byte{2, 0, 0, 0}
